@@ -5,6 +5,8 @@ package main
 
 import (
 	"fmt"
+
+	"cosmossdk.io/collections"
 	"math/big"
 	"strings"
 	"time"
@@ -361,6 +363,10 @@ func (w *brWorld) history(nops int) {
 			if r.Chance(20) {
 				val = []int64{999, 1000, 9999, 10000, 10001, 20000, 100000000}[r.Intn(7)]
 			}
+			if sd := r.Side(11); bp.DepositTaxRate > 0 && bp.MinDepositAmount <= 10000 && sd.Chance(30) {
+				val = []int64{10000, 10000, 10001, 9999}[sd.Intn(4)] // the value from which the tax applies
+				w.st.Count("deposit-at-the-tax-threshold")
+			}
 			version := uint32(0)
 			if key.Type == 0 && r.Chance(40) {
 				version = 1
@@ -425,6 +431,25 @@ func (w *brWorld) history(nops int) {
 				if i == 0 && forceDep != nil {
 					d, forceDep = forceDep, nil
 					forced = true
+				}
+				if sd := r.Side(uint64(13 + i)); !forced && i == 0 && sd.Chance(55) {
+					// a deposit that can be credited: its block is voted, its key registered, not credited yet
+					var good []*pendingDeposit
+					for _, c := range minedDeps {
+						has, _ := w.e.Relayer.HasPubkey(w.e.Ctx, relayertypes.EncodePublicKey(c.key.Pub))
+						done, _ := w.e.Bitcoin.Deposited.Has(w.e.Ctx, collections.Join(c.tx.Txid, c.vout))
+						if c.height <= voted() && has && !done && (c.index > 0 || voted() >= c.height+100) {
+							good = append(good, c)
+						}
+					}
+					if len(good) > 0 {
+						d = good[sd.Intn(len(good))]
+						forced = sd.Chance(75) // mostly presented as mined
+						if nd > 1 && sd.Chance(60) {
+							nd = 1
+						}
+						w.st.Count("deposit-submission-of-a-creditable-deposit")
+					}
 				}
 				if i > 0 && r.Chance(25) {
 					d = picked[0] // duplicate inside the batch
@@ -514,8 +539,12 @@ func (w *brWorld) history(nops int) {
 			cls, _ := w.e.Tx(func(c sdk.Context) error { _, err := srv.NewDeposits(c, msg); return err })
 			w.addOp(fmt.Sprintf("(BDeposits %s %s %s)", propCoq, cList(hdrCoq), cList(dsCoq)), cls, nil, lkOpRec{Kind: "deposits", Args: map[string]any{"n": len(ds), "proposer": prop}})
 			w.sig.WriteString(fmt.Sprintf("D%d%d", len(ds), cls))
-			if forced {
-				w.st.Count(fmt.Sprintf("matured-coinbase-deposit-submitted:class=%d", cls))
+			if forced && len(picked) > 0 {
+				if picked[0].index == 0 {
+					w.st.Count(fmt.Sprintf("matured-coinbase-deposit-submitted:class=%d", cls))
+				} else {
+					w.st.Count(fmt.Sprintf("creditable-deposit-presented-as-mined:class=%d", cls))
+				}
 			}
 			w.monitorDeposits(cls, before, ds, hdrs, prop)
 		// ------------------------------------------------ withdrawals: user requests
@@ -570,6 +599,10 @@ func (w *brWorld) history(nops int) {
 			}
 			if r.Chance(10) {
 				x := []uint64{0, 999, 1000, 1001, 5000, 30000}[r.Intn(6)]
+				if sd := r.Side(17); sd.Chance(14) {
+					x = 1<<63 + uint64(sd.Intn(1000)) // in range for the request path; no deposit can reach it
+					w.st.Count("min-deposit-request-with-the-top-bit-set")
+				}
 				q.MinDeposit = append(q.MinDeposit, &goattypes.MinDepositRequest{Satoshi: x})
 				mC = append(mC, fmt.Sprint(x))
 			}
